@@ -1369,10 +1369,14 @@ impl Cluster {
         let slot = &mut self.nodes[i];
         let lo = slot.dur.trunc_index;
         let hi = slot.app.applied.min(slot.dur.hs.commit).max(lo);
+        // an explicit applied index may lie beyond the stored commit index (HardState.commit need not be synced
+        // with every advance; the application knows what it applied) but not beyond the durable log
+        let dur_last = slot.dur.trunc_index + slot.dur.entries.len() as u64;
+        let hi_explicit = slot.app.applied.min(dur_last).max(lo);
         let a = if applied < 0 {
             hi
         } else {
-            (applied as u64).clamp(lo, hi)
+            (applied as u64).clamp(lo, hi_explicit)
         };
         let mut img = slot.dur.clone();
         img.conf = conf_state_of(&hist_conf_at(&slot.app.conf_hist, a));
